@@ -6,6 +6,11 @@ What runs (see design_notes/C18.md):
      from the live classes; `lake build BqVerif.Props.C18` re-proves (by
      `decide`) that it equals the hand-written shape table, and re-checks the
      algebraic theorems (unitarity / gradient / inverse / composition).
+     translate/gate_identity.py regenerates Generated/GateIdentity.lean (what
+     every `__eq__`/`__hash__` reads, from the AST of the live classes): equal
+     to the model's table and coherent (`C18_identity_*`).
+  1b. harness/c18_identity.py: ==/hash on families of constructor-argument
+     variants of every class (see there).
   2. Every concrete class exported by `bqskit.ir.gates` is discovered by
      introspection and instantiated over a sweep of constructor arguments
      (radix 2-5, 1-3 controls and control levels, powers -3..3, frozen subsets,
@@ -1212,6 +1217,12 @@ def replay(ck: Check):
             n += 1
             ck.violation(sig, what, rep, found_input=f)
         ck.count(('replay', rp['spec']))
+    elif 'a_expr' in rp:
+        from harness import c18_identity
+        ck.count(('replay', rp['a_expr'], rp.get('b_expr')))
+        for kind, cls, text in c18_identity.replay_pair(rp):
+            n += 1
+            ck.violation(f'{kind}:{cls}', text, rp)
     elif 'a' in rp and 'b' in rp:
         a, b = build(ast.literal_eval(rp['a'])), build(ast.literal_eval(rp['b']))
         sa = outer_class(ast.literal_eval(rp['a']))
@@ -1248,13 +1259,20 @@ def run(ck: Check):
         _t0[0] = _t.time()
 
     # ------------------------------------------------ (B) shapes + obligations
-    from translate import gate_shapes
+    from translate import gate_identity, gate_shapes
     try:
         shape_rows = gate_shapes.write()
     except Exception as e:
         raise InfraError(f'translate/gate_shapes.py failed: {e!r}')
+    try:
+        id_rows = gate_identity.write()
+    except Exception as e:
+        raise InfraError(f'translate/gate_identity.py failed: {e!r}')
     proved = ck.lean_obligations()
     ck.coverage['shape_rows'] = len(shape_rows)
+    ck.coverage['identity_rows'] = len(id_rows)
+    ck.coverage['identity_rows_with_own_eq_or_hash'] = sum(
+        1 for r in id_rows if r[1] != 'object' or r[2] != 'object')
     phase('lean')
 
     # ------------------------------------------------------------ discovery
@@ -1568,6 +1586,18 @@ def run(ck: Check):
     ck.coverage['eq_pairs_checked'] = neq
     phase('eq')
 
+    # ------------------- identity families: == / hash over argument variants
+    from harness import c18_identity
+    try:
+        ck.coverage['identity_families'] = c18_identity.check_identity(
+            ck, found, base_specs + special_specs, rng, thorough)
+    except InfraError:
+        raise
+    except Exception as e:
+        import traceback
+        raise InfraError('identity families failed:\n' + traceback.format_exc())
+    phase('identity')
+
     # ------------------------------------------------------ malformed stream
     nmal = malformed(ck, rng)
     ck.coverage['malformed_requests'] = nmal
@@ -1587,13 +1617,16 @@ def run(ck: Check):
         'every vector a distinct evaluation (constant gates contribute one case)')
     if not proved:
         sd = gate_shapes.diff_against_model()
+        idd = gate_identity.diff_against_model()
         ck.violation(
             'proof-obligation', 'Lean obligations of Props/C18 do not check; '
             + (f'shape rows that differ from the model table: {sd[:3]}; ' if sd else
                'shape table unchanged; ')
+            + (f'__eq__/__hash__ rows that differ from the model table: {idd[:2]}; ' if idd else
+               'identity table unchanged; ')
             + 'build log tail: ' + ' '.join((ck.proof_failure or '').split())[-300:],
             {'broken': 'BqVerif.Props.C18', 'log': ck.proof_failure,
-             'shape_diff': sd},
+             'shape_diff': sd, 'identity_diff': idd},
             found_input=False)
     ck.assumptions += [
         'the carrier of the theorems is an arbitrary commutative *-ring with '
